@@ -68,7 +68,7 @@ MANIFEST = {
             "different op counts, waits on/off, both flow-shop table layouts) validated against the reset-time instance: "
             "each real op once on one eligible machine for exactly its time, job order, machine exclusivity, padded ops "
             "untouched, reward = -makespan; plus agreement with a reference simulator of the same action sequence. "
-            "Exploration over instances x action histories.",
+            "Exploration over instances x action histories. Also: FJSP/JSSP with stepwise_reward (telescoping of the step rewards) and check_mask; L2D policy decodes whose RETURNED actions are replayed by the reference simulator.",
     "note": "Trusted base: vlib/oracles/scheduling.py (self-tested at import).",
     "technique": "runtime monitoring: schedule-validity oracle on final state + reference simulator replay of the recorded action history",
     "design_ref": "DESIGN.md section 4 / C07",
